@@ -321,7 +321,10 @@ func cmdCheck(args []string) int {
 				}
 			}
 			rp := writeReplay(o.Name, body)
-			if o.Status == "failed" && o.Failing != nil {
+			if o.Failing != nil && o.Failing.Candidate {
+				body["counterexample_kind"] = "candidate from the ground part of an undecided quantified query; believed only if the replay reproduces"
+			}
+			if (o.Status == "failed" || (o.Failing != nil && o.Failing.Candidate)) && o.Failing != nil && len(o.Failing.Values) > 0 {
 				ok, detail := tryReplay(*verif, *root, o, rp)
 				body["replay"] = detail
 				if ok {
